@@ -248,6 +248,7 @@ class Gen:
     def __init__(self, rng):
         self.rng = rng
         self.pool = {"bool": [], "num": []}     # subtrees used earlier in this history (sharing => memo hits)
+        self.bad_used = []
 
     def obj(self, bound):
         if bound and self.rng.random() < 0.7:
@@ -327,16 +328,19 @@ class Gen:
         rng = self.rng
         ctx = self.boolean(2, [])
         r = rng.random()
-        if r < 0.12:
+        if r < 0.2:
             # a bare ill-typed construction from a small set, so that the same one comes back later in the history
             # (its first failure must not make the second one pass)
+            if self.bad_used and rng.random() < 0.6:
+                return (rng.choice(["fluents", "free_vars", "simplify", "build"]), rng.choice(self.bad_used)), "bare-ill-typed-again"
             bad = rng.choice([("Equals", ("b", rng.randrange(2)), ("b", rng.randrange(2))),
                               ("Div", ("int", 3), ("int", 0)),
                               ("g", ("int", rng.choice([7, 8]))),
                               ("Div", ("xb",), ("Minus", ("int", 2), ("int", 2))),
                               ("And", [("b", 0), ("int", 1)])])
+            self.bad_used.append(bad)
             return (rng.choice(["build", "type", "fluents", "free_vars", "simplify"]), bad), "bare-ill-typed"
-        if r < 0.25:
+        if r < 0.3:
             # ill-typed equality on booleans, inside a conjunction: the TypeChecker raises at the Equals node
             bad = ("Equals", ("b", rng.randrange(3)), ("b", rng.randrange(3)))
             return (rng.choice(["build", "simplify", "fluents"]), ("And", [ctx, bad, ("b", 0)])), "eq-bool"
@@ -461,8 +465,14 @@ def run(ctx):
         tags = ["c14", "fresh-env-oracle", "call:" + f["call"][0], "shared:" + f["shared_env"][1] if f["shared_env"][0] == "exc" else "shared:ok"]
         ctx.fail("oracle", "call %s answers %s on the shared environment but %s on a fresh one (after %d earlier calls)" % (
             f["call"][0], f["shared_env"], f["fresh_env"], f["step"]), tags, f, True)
-    for i in bad:
-        where = ctx.coq_show("first_bad c", imports=imports, preamble="Definition c := %s.\n" % cases[i], timeout=600)
+    if len(bad) > 3:
+        ctx.fail("corr", "%d further histories: walker log disagrees with the model (indices %s)" % (len(bad) - 3, bad[3:20]),
+                 ["c14", "corr"], {"indices": bad[3:], "histories": [raw[i] for i in bad[3:8]]},
+                 any(f["history"] in bad[3:] for f in oracle_fail))
+    for rank, i in enumerate(bad[:3]):
+        # the diagnosis recompiles the case; only the first few failing cases get one
+        where = "(not computed)" if rank >= 3 else ctx.coq_show(
+            "first_bad c", imports=imports, preamble="Definition c := %s.\n" % cases[i], timeout=600)
         ctx.fail("corr", "walker log: implementation and model disagree (corr:C14:walk/process) at log entry %s" % where[-40:],
                  ["c14", "corr"], {"history": raw[i], "first_bad_entry": where,
                                    "theorem_or_corr": "corr:C14:walk/process/evaluate"},
